@@ -25,6 +25,21 @@ use std::sync::atomic::{AtomicUsize, Ordering};
 use std::sync::Arc;
 use std::task::{Context, Poll};
 
+/// Pending once (waking itself), then ready: "one scheduling step later".
+struct YieldOnce(bool);
+impl Future for YieldOnce {
+    type Output = ();
+    fn poll(mut self: Pin<&mut Self>, cx: &mut Context<'_>) -> Poll<()> {
+        if self.0 {
+            Poll::Ready(())
+        } else {
+            self.0 = true;
+            cx.waker().wake_by_ref();
+            Poll::Pending
+        }
+    }
+}
+
 pub struct WakeCounter(pub AtomicUsize);
 impl ArcWake for WakeCounter {
     fn wake_by_ref(a: &Arc<Self>) {
@@ -149,6 +164,13 @@ pub struct Driver {
     pub setup: Setup,
     /// the app set shared with the machine (the observer looks at it between polls, as an embedder would)
     app_set: Option<Rc<AMutex<VecAppSet>>>,
+    storage_rc: Option<Rc<AMutex<SimStorage>>>,
+    /// 0 = off; otherwise every run-loop iteration starts, with chance 1/n, an embedder task that takes the
+    /// shared storage lock, keeps it for one scheduling step, takes the app-set lock (the library's own
+    /// order) and releases both.
+    pub embedder_rate: u64,
+    embedder: Option<Pin<Box<dyn Future<Output = ()>>>>,
+    pub embedder_touches: u64,
     /// strict-wake: poll the stream only when the root waker fired since the last poll.
     pub strict: bool,
     pub out_of_steps: bool,
@@ -222,6 +244,10 @@ impl Driver {
             panicked: None,
             setup: setup.clone(),
             app_set: None,
+            storage_rc: None,
+            embedder_rate: 0,
+            embedder: None,
+            embedder_touches: 0,
             strict: true,
             out_of_steps: false,
         };
@@ -239,6 +265,7 @@ impl Driver {
         let app_set = Rc::new(AMutex::new(VecAppSet::new(apps)));
         self.app_set = Some(app_set.clone());
         let storage = Rc::new(AMutex::new(SimStorage { w: w.clone() }));
+        self.storage_rc = Some(storage.clone());
         let order = setup.builder_order;
         let placeholder = Config {
             updater: Updater { name: "placeholder".into(), version: Version::from([0]) },
@@ -359,6 +386,13 @@ impl Driver {
                         if let Some(a) = &self.app_set {
                             if a.try_lock().is_none() {
                                 g.push(Ev::ObserverBlocked { on: "app_set" });
+                            }
+                        }
+                        if self.embedder.is_none() {
+                            if let Some(st) = &self.storage_rc {
+                                if st.try_lock().is_none() {
+                                    g.push(Ev::ObserverBlocked { on: "storage" });
+                                }
                             }
                         }
                     }
@@ -528,6 +562,46 @@ impl Driver {
         req
     }
 
+    /// An embedder that gives up on a request (drops its future after the first poll, e.g. a timeout while
+    /// the stream is polled lazily) and then asks again through the *same* handle object.
+    pub fn abandon_and_resend(&mut self, h: usize, od_first: bool, od_second: bool) -> Option<(usize, usize)> {
+        let mut handle = self.handles.get_mut(h).and_then(|x| x.take())?;
+        self.handles[h] = Some(handle.clone());
+        let opt = |od: bool| CheckOptions { source: if od { InstallSource::OnDemand } else { InstallSource::ScheduledTask } };
+        let req1 = self.n_ctl;
+        self.n_ctl += 1;
+        let sent1 = lock(&self.w).push(Ev::CtlSend { req: req1, handle: h, on_demand: od_first });
+        let resolved = {
+            let wk = waker(self.ctl_wake.clone());
+            let mut cx = Context::from_waker(&wk);
+            let mut fut = Box::pin(handle.start_update_check(opt(od_first)));
+            match fut.as_mut().poll(&mut cx) {
+                Poll::Ready(r) => Some(r),
+                Poll::Pending => None,
+            }
+            // the future is dropped here: the request is abandoned
+        };
+        match resolved {
+            Some(r) => {
+                let reply = match r {
+                    Ok(StartUpdateCheckResponse::Started) => "Started",
+                    Ok(StartUpdateCheckResponse::AlreadyRunning) => "AlreadyRunning",
+                    Ok(StartUpdateCheckResponse::Throttled) => "Throttled",
+                    Err(_) => "Gone",
+                };
+                let mut g = lock(&self.w);
+                let hi = g.seq;
+                g.push(Ev::CtlReply { req: req1, reply: reply.to_string(), lo: sent1, hi });
+            }
+            None => {
+                lock(&self.w).push(Ev::CtlAbandon { req: req1 });
+            }
+        }
+        self.sig.str("Ca");
+        let req2 = self.send_with(handle, h, od_second);
+        Some((req1, req2))
+    }
+
     pub fn clone_handle(&mut self, h: usize) -> Option<usize> {
         let c = self.handles.get(h).and_then(|x| x.as_ref())?.clone();
         self.handles.push(Some(c));
@@ -556,6 +630,7 @@ impl Driver {
 
     /// Process death: everything in memory is gone, the storage overlay is discarded.
     pub fn teardown(&mut self) {
+        self.embedder = None;
         self.stream = None;
         self.ctl.clear();
         self.handles.clear();
@@ -600,11 +675,46 @@ impl Driver {
         Driver::new(w, setup)
     }
 
+    /// One step of the embedder task (started with chance 1/embedder_rate when none is running).  Returns
+    /// true if the task was polled.
+    fn step_embedder(&mut self, rng: &mut Rng) -> bool {
+        if self.embedder_rate == 0 || !self.alive() {
+            return false;
+        }
+        if self.embedder.is_none() {
+            if !rng.chance(1, self.embedder_rate) {
+                return false;
+            }
+            let (Some(st), Some(ap)) = (self.storage_rc.clone(), self.app_set.clone()) else { return false };
+            let w = self.w.clone();
+            self.embedder = Some(Box::pin(async move {
+                let s = st.lock().await;
+                YieldOnce(false).await;
+                let a = ap.lock().await;
+                lock(&w).push(Ev::EmbedderTouched);
+                drop(a);
+                drop(s);
+            }));
+        }
+        let wk = futures::task::noop_waker();
+        let mut cx = Context::from_waker(&wk);
+        if let Some(f) = self.embedder.as_mut() {
+            if f.as_mut().poll(&mut cx).is_ready() {
+                self.embedder = None;
+                self.embedder_touches += 1;
+            }
+        }
+        true
+    }
+
     /// Default flow runner: settle, then release one pending gate chosen by `sched`, until `stop`
     /// says so, the stream ends, nothing can happen any more, or the step budget is exhausted.
     pub fn run(&mut self, sched: Sched, rng: &mut Rng, mut stop: impl FnMut(&Driver) -> bool) -> RunEnd {
         loop {
             self.settle();
+            if self.step_embedder(rng) {
+                self.settle();
+            }
             if self.panicked.is_some() {
                 return RunEnd::Panicked;
             }
@@ -622,6 +732,25 @@ impl Driver {
             }
             let gates = self.pending_gates();
             if gates.is_empty() {
+                if self.embedder.is_some() {
+                    // nothing else can happen: give the embedder task its remaining steps
+                    let mut progressed = false;
+                    for _ in 0..4 {
+                        let before = self.embedder_touches;
+                        let mut none = Rng::new(0);
+                        self.step_embedder(&mut none);
+                        self.settle();
+                        if self.embedder.is_none() || self.embedder_touches != before || !self.pending_gates().is_empty() {
+                            progressed = true;
+                            break;
+                        }
+                    }
+                    if progressed {
+                        continue;
+                    }
+                    // machine and embedder wait for each other's lock, nothing else is pending
+                    lock(&self.w).push(Ev::ObserverBlocked { on: "deadlock-with-embedder" });
+                }
                 return RunEnd::Blocked;
             }
             let g = match sched {
